@@ -160,6 +160,7 @@ int main(){
         try{
             // ------------------------------------------------------------ mesh of the request
             if(w[0] == "cell"){ pos.clear(); polys.clear(); c.reset(); std::cout << "ok\n"; }
+            else if(w[0] == "note"){ std::cout << "ok\n"; }      // annotation for the replay (what the following requests are)
             else if(w[0] == "n" && w.size() == 4){ for(int i = 1; i < 4; i++) pos.push_back(from_hex(w[i])); std::cout << "ok\n"; }
             else if(w[0] == "t" && w.size() >= 4){ std::vector<unsigned> f; for(size_t i = 1; i < w.size(); i++) f.push_back((unsigned) std::stoul(w[i])); polys.push_back(f); std::cout << "ok\n"; }
             else if(w[0] == "init" && w.size() == 1){
